@@ -123,7 +123,11 @@ BlankNumIds(kind, doc, v) ==       \* the decoded value with the ids of the memb
   ELSE IF Len(v.features) # Len(Members(kind, doc)) THEN v
   ELSE [v EXCEPT !.features = [k \in DOMAIN @ |-> IF HasNumId(Members(kind, doc)[k]) THEN Blank(@[k]) ELSE @[k]]]
 InDouble(a) == a.k = "n" /\ a.nd <= 15 /\ a.mag >= -300 /\ a.mag <= 300
-IdKept(a, b) == b.k \in {"s", "n"} /\ b.num = a.num
+\* A numeric id comes back as the same number: as a JSON number, or as a string that spells it. The string is the text that was
+\* read, or a plain decimal; an exponent spelling the document did not use is a different key for anything that looks the id up
+\* ("1234567" read, "1.234567e+06" kept), except where every common printer switches to exponents (JavaScript: >= 1e21, < 1e-6).
+IdSpelling(a, b) == b.k = "s" => (b.form = "plain" \/ b.s = a.lit \/ a.mag > 21 \/ a.mag < -5)
+IdKept(a, b) == b.k \in {"s", "n"} /\ b.num = a.num /\ IdSpelling(a, b)
 IdsInDouble(kind, doc, idin) ==
   /\ Len(idin) = Len(Members(kind, doc))
   /\ \A k \in DOMAIN idin : HasNumId(Members(kind, doc)[k]) => InDouble(idin[k])
